@@ -40,6 +40,10 @@ enum ST {
     /// an unconstrained integer / float literal type (filtermap payloads only)
     IntLit,
     FloatLit,
+    /// script-declared `record`/`enum` that bears a name the language reserves
+    /// in the global scope (`record i64 { … }`, `enum Option[T] { … }`): the
+    /// type `pkg.<name>[args]`, which has no Rust counterpart
+    Shadow(&'static str, Vec<ST>),
     Opt(Box<ST>),
     List(Box<ST>),
     Res(Box<ST>, Box<ST>),
@@ -51,38 +55,168 @@ const PRIMS: [&str; 16] = [
     "Prefix", "String",
 ];
 
+/// Names the language reserves in the global scope (the 16 leaf names and the
+/// four constructors): a type of the same *identifier* in another scope is a
+/// different type.
+const CTORS: [&str; 4] = ["Option", "List", "Result", "Verdict"];
+
+/// scope number of the script's own `pkg` module in driver requests
+const PKG_SCOPE: u32 = 1;
+
+/// The host environments scripts are compiled against: how `Val<Foo>` (k = 0)
+/// and `Val<Bar>` (k = 1) are registered — (path prefix in script source,
+/// scope number for the driver (0 = global), identifier). Environments 1..3
+/// register them inside runtime modules under names of primitives and
+/// constructors.
+const ENVS: [[(&str, u32, &str); 2]; 4] = [
+    [("", 0, "Foo"), ("", 0, "Bar")],
+    [("foo.", 2, "u32"), ("foo.", 2, "String")],
+    [("", 0, "Foo"), ("net.", 2, "i64")],
+    [("foo.", 2, "Option"), ("foo.bar.", 3, "bool")],
+];
+
+fn scope_sexp(scope: u32) -> String {
+    if scope == 0 { "g".into() } else { scope.to_string() }
+}
+
+/// What a script is compiled in: the host environment and the reserved names
+/// the script itself re-declares (`(name, is_enum)`).
+#[derive(Clone, Debug, Default)]
+struct Cx {
+    env: usize,
+    shadow: Vec<(&'static str, bool)>,
+}
+
+impl Cx {
+    fn reg_path(&self, k: u8) -> String {
+        let (prefix, _, ident) = ENVS[self.env][k as usize % 2];
+        format!("{prefix}{ident}")
+    }
+    /// the Rust leaf whose Roto name is the identifier `Val<…>` number `k` is registered under
+    fn reg_named_like(&self, k: u8) -> Option<&'static str> {
+        let (_, scope, ident) = ENVS[self.env][k as usize % 2];
+        if scope == 0 {
+            return None;
+        }
+        PRIMS.iter().find(|p| **p == ident).map(|p| if *p == "String" { "RotoString" } else { *p })
+    }
+    fn env_sexp(&self) -> String {
+        let e = ENVS[self.env];
+        format!(
+            "(env (rt {} #{} 100) (rt {} #{} 101))",
+            scope_sexp(e[0].1),
+            hex(e[0].2),
+            scope_sexp(e[1].1),
+            hex(e[1].2)
+        )
+    }
+    fn shadowed(&self, n: &str) -> Option<&'static str> {
+        self.shadow.iter().find(|s| s.0 == n).map(|s| s.0)
+    }
+    /// the declarations of the re-declared reserved names
+    fn shadow_decls(&self) -> String {
+        let mut out = String::new();
+        // a field type that is not itself re-declared
+        let fill = ["u64", "bool", "u8", "i32"].into_iter().find(|n| self.shadowed(n).is_none()).unwrap_or("u16");
+        for (n, is_enum) in &self.shadow {
+            let arity = match *n {
+                "Option" | "List" => 1,
+                "Result" | "Verdict" => 2,
+                _ => 0,
+            };
+            out.push_str(&match (is_enum, arity) {
+                (false, 0) => format!("record {n} {{ a: {fill}, b: {fill} }}\n"),
+                (false, 1) => format!("record {n}[T] {{ a: T }}\n"),
+                (false, _) => format!("record {n}[T, E] {{ a: T, b: E }}\n"),
+                (true, 0) => format!("enum {n} {{ A, B({fill}) }}\n"),
+                (true, 1) => format!("enum {n}[T] {{ A(T), B }}\n"),
+                (true, _) => format!("enum {n}[T, E] {{ A(T), B(E) }}\n"),
+            });
+        }
+        out
+    }
+    /// What a type written in the script's source denotes: every occurrence of
+    /// a re-declared name is the script's own type.
+    fn shadowize(&self, t: &ST) -> ST {
+        if self.shadow.is_empty() {
+            return t.clone();
+        }
+        let bx = |t: &ST| Box::new(self.shadowize(t));
+        match t {
+            ST::Prim(n) => match self.shadowed(n) {
+                Some(n) => ST::Shadow(n, vec![]),
+                None => t.clone(),
+            },
+            ST::Opt(x) => match self.shadowed("Option") {
+                Some(n) => ST::Shadow(n, vec![self.shadowize(x)]),
+                None => ST::Opt(bx(x)),
+            },
+            ST::List(x) => match self.shadowed("List") {
+                Some(n) => ST::Shadow(n, vec![self.shadowize(x)]),
+                None => ST::List(bx(x)),
+            },
+            ST::Res(a, b) => match self.shadowed("Result") {
+                Some(n) => ST::Shadow(n, vec![self.shadowize(a), self.shadowize(b)]),
+                None => ST::Res(bx(a), bx(b)),
+            },
+            ST::Ver(a, b) => match self.shadowed("Verdict") {
+                Some(n) => ST::Shadow(n, vec![self.shadowize(a), self.shadowize(b)]),
+                None => ST::Ver(bx(a), bx(b)),
+            },
+            ST::Shadow(n, args) => ST::Shadow(n, args.iter().map(|a| self.shadowize(a)).collect()),
+            other => other.clone(),
+        }
+    }
+}
+
 impl ST {
-    fn src(&self, p: &mut Prng) -> String {
+    /// why the type has no Rust counterpart (for violation keys)
+    fn why_none(&self) -> &'static str {
+        match self {
+            ST::Shadow(n, _) if CTORS.contains(n) => "script-type-named-like-constructor",
+            ST::Shadow(..) => "script-type-named-like-primitive",
+            ST::Opt(t) | ST::List(t) => t.why_none(),
+            ST::Res(a, b) | ST::Ver(a, b) => {
+                if a.map().is_none() { a.why_none() } else { b.why_none() }
+            }
+            _ => "roto-only-type",
+        }
+    }
+
+    fn src(&self, p: &mut Prng, cx: &Cx) -> String {
         match self {
             ST::Prim(n) => n.to_string(),
             ST::Unit => "()".into(),
             ST::Never => "!".into(),
-            ST::Reg(0) => "Foo".into(),
-            ST::Reg(_) => "Bar".into(),
+            ST::Reg(k) => cx.reg_path(*k),
+            ST::Shadow(n, args) if args.is_empty() => n.to_string(),
+            ST::Shadow(n, args) => {
+                format!("{n}[{}]", args.iter().map(|a| a.src(p, cx)).collect::<Vec<_>>().join(", "))
+            }
             ST::Rec => "{a: i32, b: String}".into(),
             ST::NRec => "R0".into(),
             ST::NEnum => "E0".into(),
             ST::IntLit | ST::FloatLit => unreachable!("literal types have no syntax"),
             ST::Opt(t) => {
                 if p.chance(1, 2) {
-                    format!("{}?", t.src(p))
+                    format!("{}?", t.src(p, cx))
                 } else {
-                    format!("Option[{}]", t.src(p))
+                    format!("Option[{}]", t.src(p, cx))
                 }
             }
-            ST::List(t) => format!("List[{}]", t.src(p)),
-            ST::Res(a, b) => format!("Result[{}, {}]", a.src(p), b.src(p)),
-            ST::Ver(a, b) => format!("Verdict[{}, {}]", a.src(p), b.src(p)),
+            ST::List(t) => format!("List[{}]", t.src(p, cx)),
+            ST::Res(a, b) => format!("Result[{}, {}]", a.src(p, cx), b.src(p, cx)),
+            ST::Ver(a, b) => format!("Verdict[{}, {}]", a.src(p, cx), b.src(p, cx)),
         }
     }
 
     /// for the Lean driver
-    fn sexp(&self) -> String {
+    fn sexp(&self, cx: &Cx) -> String {
         let named = |n: &str, args: &[&ST]| {
             let mut s = format!("(n g #{}", hex(n));
             for a in args {
                 s.push(' ');
-                s.push_str(&a.sexp());
+                s.push_str(&a.sexp(cx));
             }
             s.push(')');
             s
@@ -91,11 +225,22 @@ impl ST {
             ST::Prim(n) => named(n, &[]),
             ST::Unit => "unit".into(),
             ST::Never => "never".into(),
-            ST::Reg(0) => named("Foo", &[]),
-            ST::Reg(_) => named("Bar", &[]),
+            ST::Reg(k) => {
+                let (_, scope, ident) = ENVS[cx.env][*k as usize % 2];
+                format!("(n {} #{})", scope_sexp(scope), hex(ident))
+            }
+            ST::Shadow(n, args) => {
+                let mut s = format!("(n {PKG_SCOPE} #{}", hex(n));
+                for a in args {
+                    s.push(' ');
+                    s.push_str(&a.sexp(cx));
+                }
+                s.push(')');
+                s
+            }
             ST::Rec => "(record 0)".into(),
-            ST::NRec => format!("(n 1 #{})", hex("R0")),
-            ST::NEnum => format!("(n 1 #{})", hex("E0")),
+            ST::NRec => format!("(n {PKG_SCOPE} #{})", hex("R0")),
+            ST::NEnum => format!("(n {PKG_SCOPE} #{})", hex("E0")),
             ST::IntLit => "intvar".into(),
             ST::FloatLit => "floatvar".into(),
             ST::Opt(t) => named("Option", &[t]),
@@ -117,7 +262,7 @@ impl ST {
             ST::IntLit => RT::Leaf("i32"),
             ST::FloatLit => RT::Leaf("f64"),
             ST::Reg(k) => RT::Val(*k),
-            ST::Never | ST::Rec | ST::NRec | ST::NEnum => return None,
+            ST::Never | ST::Rec | ST::NRec | ST::NEnum | ST::Shadow(..) => return None,
             ST::Opt(t) => RT::Opt(Box::new(t.map()?)),
             ST::List(t) => RT::List(Box::new(t.map()?)),
             ST::Res(a, b) => RT::Res(Box::new(a.map()?), Box::new(b.map()?)),
@@ -270,16 +415,16 @@ impl Decl {
         }
     }
 
-    fn src(&self, p: &mut Prng) -> String {
+    fn src(&self, p: &mut Prng, cx: &Cx) -> String {
         let params: Vec<String> =
-            self.params.iter().enumerate().map(|(i, t)| format!("p{i}: {}", t.src(p))).collect();
+            self.params.iter().enumerate().map(|(i, t)| format!("p{i}: {}", t.src(p, cx))).collect();
         let names: Vec<String> = (0..self.params.len()).map(|i| format!("p{i}")).collect();
         match &self.kind {
             Kind::Fn => {
                 let ret = if self.ret == ST::Unit && p.chance(1, 2) {
                     String::new()
                 } else {
-                    format!(" -> {}", self.ret.src(p))
+                    format!(" -> {}", self.ret.src(p, cx))
                 };
                 format!(
                     "fn {n}({ps}){ret} {{ {n}({args}) }}\n",
@@ -308,30 +453,30 @@ impl Decl {
         }
     }
 
-    fn sexp(&self) -> String {
+    fn sexp(&self, cx: &Cx) -> String {
         format!(
             "(fn #{} ({}) {})",
             hex(&self.key()),
-            self.params.iter().map(|t| t.sexp()).collect::<Vec<_>>().join(" "),
-            self.ret.sexp()
+            self.params.iter().map(|t| t.sexp(cx)).collect::<Vec<_>>().join(" "),
+            self.ret.sexp(cx)
         )
     }
 
-    fn show(&self) -> String {
+    fn show(&self, cx: &Cx) -> String {
         let mut p = Prng::new(0);
-        self.src(&mut p).trim().to_string()
+        self.src(&mut p, cx).trim().to_string()
     }
 }
 
 /// Derive a script signature from a family entry by one of the near-miss
 /// transformations (or none: the true signature).
-fn variant(p: &mut Prng, e: &Entry, which: u64) -> (Vec<ST>, ST, &'static str) {
+fn variant(p: &mut Prng, e: &Entry, which: u64, cx: &Cx) -> (Vec<ST>, ST, &'static str) {
     let mut params: Vec<ST> = e.args.iter().map(unmap).collect();
     let mut ret = unmap(&e.ret);
     let n = params.len();
     // pick a position: n = return
     let pos = p.below(n as u64 + 1) as usize;
-    let mut at = |params: &mut Vec<ST>, ret: &mut ST, f: &mut dyn FnMut(&ST) -> ST, p: &mut Prng| {
+    let at = |params: &mut Vec<ST>, ret: &mut ST, f: &mut dyn FnMut(&ST) -> ST, p: &mut Prng| {
         let t = if pos == n { &*ret } else { &params[pos] };
         let mut k = p.below(t.count_nodes() as u64) as usize;
         let t2 = t.rewrite(&mut k, f);
@@ -457,6 +602,78 @@ fn variant(p: &mut Prng, e: &Entry, which: u64) -> (Vec<ST>, ST, &'static str) {
                 "return-changed"
             }
         }
+        10 => {
+            // k further parameters after the true ones: the Rust type lists a
+            // strict prefix of the parameters (down to none of them)
+            let k = 1 + p.below(3) as usize;
+            for _ in 0..k {
+                let extra = if n > 0 && p.chance(1, 2) {
+                    params[p.below(n as u64) as usize].clone()
+                } else {
+                    ST::Prim(*p.pick(&PRIMS[..]))
+                };
+                params.push(extra);
+            }
+            "arity-plus-k-suffix"
+        }
+        11 => {
+            // the last k parameters dropped: the Rust type has k more
+            if n > 0 {
+                let k = 1 + p.below(n.min(3) as u64) as usize;
+                params.truncate(n - k);
+                "arity-minus-k-suffix"
+            } else {
+                params.push(ST::Prim("u8"));
+                "arity-plus-k-suffix"
+            }
+        }
+        12 => {
+            // a primitive replaced by the type the host registered in a module
+            // under the same identifier (`u32` ↦ `foo.u32`)
+            let mut hit = false;
+            for pos2 in (0..=n).map(|i| (pos + i) % (n + 1)) {
+                let t = if pos2 == n { ret.clone() } else { params[pos2].clone() };
+                let mut done = false;
+                let t2 = {
+                    fn go(t: &ST, cx: &Cx, done: &mut bool) -> ST {
+                        match t {
+                            ST::Prim(nm) if !*done => {
+                                for k in 0..2u8 {
+                                    let (_, scope, ident) = ENVS[cx.env][k as usize];
+                                    if scope != 0 && ident == *nm {
+                                        *done = true;
+                                        return ST::Reg(k);
+                                    }
+                                }
+                                t.clone()
+                            }
+                            ST::Opt(x) => ST::Opt(Box::new(go(x, cx, done))),
+                            ST::List(x) => ST::List(Box::new(go(x, cx, done))),
+                            ST::Res(a, b) => {
+                                let a2 = go(a, cx, done);
+                                ST::Res(Box::new(a2), Box::new(go(b, cx, done)))
+                            }
+                            ST::Ver(a, b) => {
+                                let a2 = go(a, cx, done);
+                                ST::Ver(Box::new(a2), Box::new(go(b, cx, done)))
+                            }
+                            other => other.clone(),
+                        }
+                    }
+                    go(&t, cx, &mut done)
+                };
+                if done {
+                    if pos2 == n {
+                        ret = t2;
+                    } else {
+                        params[pos2] = t2;
+                    }
+                    hit = true;
+                    break;
+                }
+            }
+            if hit { "named-like-primitive" } else { "exact" }
+        }
         8 => {
             // a type with no Rust counterpart somewhere
             let repl = [ST::Rec, ST::NRec, ST::NEnum][p.below(3) as usize].clone();
@@ -514,18 +731,50 @@ fn random_st(p: &mut Prng, depth: u32) -> ST {
 
 // ------------------------------------------------------------ the runtime
 
-fn runtime() -> Runtime<NoCtx> {
-    Runtime::from_lib(library! {
-        /// a registered type
-        #[clone] type Foo = Val<Foo>;
-        /// another registered type
-        #[clone] type Bar = Val<Bar>;
-    })
-    .expect("runtime")
+fn runtime(env: usize) -> Runtime<NoCtx> {
+    // `library!` needs the names as tokens: one literal library per row of `ENVS`
+    let lib = match env {
+        0 => library! {
+            /// a registered type
+            #[clone] type Foo = Val<Foo>;
+            /// another registered type
+            #[clone] type Bar = Val<Bar>;
+        },
+        1 => library! {
+            /// a module whose types are named like primitives
+            mod foo {
+                /// `foo.u32` is not `u32`
+                #[clone] type u32 = Val<Foo>;
+                /// `foo.String` is not `String`
+                #[clone] type String = Val<Bar>;
+            }
+        },
+        2 => library! {
+            /// a registered type
+            #[clone] type Foo = Val<Foo>;
+            /// a module
+            mod net {
+                /// `net.i64` is not `i64`
+                #[clone] type i64 = Val<Bar>;
+            }
+        },
+        _ => library! {
+            /// a module
+            mod foo {
+                /// `foo.Option` is not `Option`
+                #[clone] type Option = Val<Foo>;
+                /// a nested module
+                mod bar {
+                    /// `foo.bar.bool` is not `bool`
+                    #[clone] type bool = Val<Bar>;
+                }
+            }
+        },
+    };
+    Runtime::from_lib(lib).expect("runtime")
 }
 
 const PRELUDE: &str = "record R0 { a: i32 }\nenum E0 { A, B(u8) }\n";
-const ENV: &str = "(env (rt g #466f6f 100) (rt g #426172 101))";
 
 // --------------------------------------------------------------- outcomes
 
@@ -567,7 +816,7 @@ fn existing_keys(pkg: &mut Package<NoCtx>) -> Vec<String> {
 
 /// Where the expected Rust type (image of the script type) and the requested
 /// one differ: the mismatch class used in violation keys.
-fn tdiff(want: &Option<RT>, got: &RT) -> String {
+fn tdiff(want: &Option<RT>, got: &RT, cx: &Cx) -> String {
     let Some(w) = want else { return "roto-only-type".into() };
     fn ctor(r: &RT) -> &'static str {
         match r {
@@ -597,36 +846,51 @@ fn tdiff(want: &Option<RT>, got: &RT) -> String {
             if *b == 2 { "unregistered-type".into() } else { "other-registered-type".into() }
         }
         (RT::Opt(a), RT::Opt(b)) | (RT::List(a), RT::List(b)) if a != b => {
-            format!("{}/{}", ctor(w), tdiff(&Some((**a).clone()), b))
+            format!("{}/{}", ctor(w), tdiff(&Some((**a).clone()), b, cx))
         }
         (RT::Res(a1, a2), RT::Res(b1, b2)) | (RT::Ver(a1, a2), RT::Ver(b1, b2)) if w != got => {
             if a1 == b2 && a2 == b1 {
                 format!("swapped-args:{}", ctor(w))
             } else if a1 != b1 {
-                format!("{}.0/{}", ctor(w), tdiff(&Some((**a1).clone()), b1))
+                format!("{}.0/{}", ctor(w), tdiff(&Some((**a1).clone()), b1, cx))
             } else {
-                format!("{}.1/{}", ctor(w), tdiff(&Some((**a2).clone()), b2))
+                format!("{}.1/{}", ctor(w), tdiff(&Some((**a2).clone()), b2, cx))
             }
         }
         _ if w == got => "same".into(),
+        // a type registered in a runtime module under the name of a primitive, asked for as that primitive
+        (RT::Val(k), RT::Leaf(n)) if cx.reg_named_like(*k) == Some(*n) => "registered-type-named-like-primitive".into(),
+        (RT::Leaf(n), RT::Val(k)) if cx.reg_named_like(*k) == Some(*n) => "primitive-as-registered-type-of-same-name".into(),
         _ => format!("ctor:{}->{}", ctor(w), ctor(got)),
     }
 }
 
 /// `None`: the documented mapping makes `e` the true Rust type of `d`.
-fn mismatch_class(d: &Decl, e: &Entry) -> Option<String> {
+fn mismatch_class(d: &Decl, e: &Entry, cx: &Cx) -> Option<String> {
     if d.params.len() != e.args.len() {
-        return Some(format!("arity:{}->{}", d.params.len(), e.args.len()));
+        let n = d.params.len().min(e.args.len());
+        let prefix_ok = d.params[..n].iter().zip(&e.args[..n]).all(|(t, r)| t.map().as_ref() == Some(r))
+            && d.ret.map().as_ref() == Some(&e.ret);
+        // the Rust type lists only a leading part of the parameters (or the
+        // parameters plus extra ones) and is right otherwise
+        let kind = match (prefix_ok, e.args.len() < d.params.len()) {
+            (true, true) => "arity-prefix",
+            (true, false) => "arity-extended",
+            _ => "arity",
+        };
+        return Some(format!("{kind}:{}->{}", d.params.len(), e.args.len()));
     }
-    for (i, (t, r)) in d.params.iter().zip(&e.args).enumerate() {
+    let td = |t: &ST, r: &RT| {
         let w = t.map();
-        if w.as_ref() != Some(r) {
-            return Some(format!("arg{}:{}", i + 1, tdiff(&w, r)));
+        if w.is_none() { t.why_none().to_string() } else { tdiff(&w, r, cx) }
+    };
+    for (i, (t, r)) in d.params.iter().zip(&e.args).enumerate() {
+        if t.map().as_ref() != Some(r) {
+            return Some(format!("arg{}:{}", i + 1, td(t, r)));
         }
     }
-    let w = d.ret.map();
-    if w.as_ref() != Some(&e.ret) {
-        return Some(format!("ret:{}", tdiff(&w, &e.ret)));
+    if d.ret.map().as_ref() != Some(&e.ret) {
+        return Some(format!("ret:{}", td(&d.ret, &e.ret)));
     }
     None
 }
@@ -634,7 +898,7 @@ fn mismatch_class(d: &Decl, e: &Entry) -> Option<String> {
 /// the mismatch class without its position: `arg3:Option/leaf:width` ↦ `arg:leaf:width`
 fn key_class(c: &str) -> String {
     if c.starts_with("arity") {
-        return "arity".into();
+        return c.split(':').next().unwrap_or("arity").to_string();
     }
     let (pos, rest) = c.split_once(':').unwrap_or((c, ""));
     let pos = pos.trim_end_matches(|ch: char| ch.is_ascii_digit());
@@ -647,6 +911,9 @@ fn key_class(c: &str) -> String {
 struct Script {
     src: String,
     decls: Vec<Decl>,
+    cx: Cx,
+    /// the plan's class: `random`, or the boundary class the script represents
+    kind: &'static str,
 }
 
 struct Pair {
@@ -657,10 +924,88 @@ struct Pair {
     label: String,
 }
 
+/// What script number `index` of a run is about. The first `boundary_count`
+/// indices are the boundary stream: one script per trigger class
+/// (re-declared primitive / constructor names, module-registered types named
+/// like primitives, one-sided arities), so that those classes are reached in
+/// every run and not by luck; the rest is random, a quarter of it in the
+/// non-standard contexts as well.
+struct Plan {
+    cx: Cx,
+    kind: &'static str,
+    /// leaf names / constructor names the stride targets must mention
+    focus: Vec<&'static str>,
+    /// variant kinds every target gets besides the exact signature
+    forced: Vec<u64>,
+}
+
+fn boundary_count(thorough: bool) -> u64 {
+    if thorough { 40 } else { 12 }
+}
+
+fn plan(seed: u64, index: u64, thorough: bool) -> Plan {
+    let b = boundary_count(thorough);
+    let s = seed as usize;
+    let leaf = |k: usize| PRIMS[(k + s) % 16];
+    let std = |kind, focus, forced| Plan { cx: Cx::default(), kind, focus, forced };
+    if index < b {
+        // quick: 4 leaf scripts (2 names each, rotating with the seed), 3
+        // constructor scripts, 3 environments, 2 arity scripts; thorough: all
+        // 16 leaf names in both forms first
+        let (i, leaf_scripts) = (index as usize, if thorough { 32 } else { 4 });
+        if i < leaf_scripts {
+            let (a, b2) = if thorough { (leaf(i / 2), leaf(i / 2 + 5)) } else { (leaf(4 * i), leaf(4 * i + 2)) };
+            let flip = i % 2 == 1;
+            return Plan {
+                cx: Cx { env: 0, shadow: vec![(a, flip), (b2, !flip)] },
+                kind: "script-type-named-like-primitive",
+                focus: vec![a, b2],
+                forced: vec![],
+            };
+        }
+        return match i - leaf_scripts {
+            0 => Plan { cx: Cx { env: 0, shadow: vec![("Option", false)] }, kind: "script-type-named-like-constructor", focus: vec!["Option"], forced: vec![] },
+            1 => Plan { cx: Cx { env: 0, shadow: vec![("Result", true), ("List", false)] }, kind: "script-type-named-like-constructor", focus: vec!["Result", "List"], forced: vec![] },
+            2 => Plan { cx: Cx { env: 0, shadow: vec![("Verdict", false), (leaf(9), true)] }, kind: "script-type-named-like-constructor", focus: vec!["Verdict", leaf(9)], forced: vec![] },
+            3 => Plan { cx: Cx { env: 1, shadow: vec![] }, kind: "registered-type-named-like-primitive", focus: vec!["u32", "String", "Val"], forced: vec![12] },
+            4 => Plan { cx: Cx { env: 2, shadow: vec![] }, kind: "registered-type-named-like-primitive", focus: vec!["i64", "Val"], forced: vec![12] },
+            5 => Plan { cx: Cx { env: 3, shadow: vec![] }, kind: "registered-type-named-like-primitive", focus: vec!["bool", "Option", "Val"], forced: vec![12] },
+            6 => std("one-sided-arity", vec![], vec![10, 11]),
+            _ => std("one-sided-arity", vec![], vec![10, 11, 10]),
+        };
+    }
+    let mut p = Prng::for_case(seed ^ 0x504c414e, index);
+    match p.below(8) {
+        0 => {
+            let n = *p.pick(&PRIMS[..]);
+            let c = *p.pick(&CTORS[..]);
+            Plan { cx: Cx { env: 0, shadow: vec![(n, p.chance(1, 2)), (c, p.chance(1, 2))] }, kind: "random+redeclared-names", focus: vec![n, c], forced: vec![] }
+        }
+        1 => {
+            let env = 1 + p.below(3) as usize;
+            Plan { cx: Cx { env, shadow: vec![] }, kind: "random+module-types", focus: vec![ENVS[env][0].2, ENVS[env][1].2], forced: vec![12] }
+        }
+        _ => std("random", vec![], vec![]),
+    }
+}
+
+/// does the Rust type mention the leaf (by Roto name) / constructor / `Val`?
+fn mentions(r: &RT, what: &str) -> bool {
+    match r {
+        RT::Leaf(n) => *n == what || (*n == "RotoString" && what == "String"),
+        RT::Val(k) => what == "Val" && *k < 2,
+        RT::Opt(t) => what == "Option" || mentions(t, what),
+        RT::List(t) => what == "List" || mentions(t, what),
+        RT::Res(a, b) => what == "Result" || mentions(a, what) || mentions(b, what),
+        RT::Ver(a, b) => what == "Verdict" || mentions(a, what) || mentions(b, what),
+    }
+}
+
 fn gen_script(fam: &[Entry], seed: u64, index: u64, thorough: bool) -> (Script, Vec<Pair>) {
     let mut p = Prng::for_case(seed, index);
+    let Plan { cx, kind: script_kind, focus, forced } = plan(seed, index, thorough);
     let targets_n = 8usize;
-    let variants_n = if thorough { 7 } else { 5 };
+    let variants_n = (if thorough { 7 } else { 5 }).max(1 + forced.len() + 2);
     let mut decls: Vec<Decl> = vec![];
     let mut pairs: Vec<Pair> = vec![];
     let mut targets: Vec<usize> = vec![];
@@ -672,7 +1017,7 @@ fn gen_script(fam: &[Entry], seed: u64, index: u64, thorough: bool) -> (Script, 
         }
     }
     let pick_where = |p: &mut Prng, f: &dyn Fn(&Entry) -> bool| -> usize {
-        for _ in 0..64 {
+        for _ in 0..256 {
             let i = p.below(fam.len() as u64) as usize;
             if f(&fam[i]) {
                 return i;
@@ -680,30 +1025,50 @@ fn gen_script(fam: &[Entry], seed: u64, index: u64, thorough: bool) -> (Script, 
         }
         p.below(fam.len() as u64) as usize
     };
+    let all = |e: &Entry| -> Vec<RT> { e.args.iter().chain(std::iter::once(&e.ret)).cloned().collect() };
     for j in 0..targets_n {
         // a stride coprime to the family size walks the whole family; the other
         // targets are drawn from the filtermap-shaped, binary-constructor and
-        // deep entries, or at random
+        // deep entries, or at random. With a focus (boundary classes), the
+        // stride targets are entries that mention the focus names, of growing arity.
         let t = match j {
+            0 | 2 | 4 | 6 if !focus.is_empty() => {
+                let f = focus[(j / 2) % focus.len()];
+                let want_arity = j / 2;
+                let i = pick_where(&mut p, &|e| all(e).iter().any(|r| mentions(r, f)) && e.args.len() >= want_arity);
+                if all(&fam[i]).iter().any(|r| mentions(r, f)) { i } else { pick_where(&mut p, &|e| all(e).iter().any(|r| mentions(r, f))) }
+            }
+            0 | 2 | 4 | 6 if script_kind == "one-sided-arity" => {
+                // arities 1, 3, 5, 7 in one script, 2, 4, 6, 7 in the other
+                let want = (j + 1 + (index as usize % 2)).min(7);
+                pick_where(&mut p, &|e| e.args.len() == want)
+            }
             0 | 2 | 4 | 6 => ((index as usize * 4 + j / 2) * 389 + (seed as usize % 997)) % fam.len(),
             1 => pick_where(&mut p, &|e| e.group == "fm"),
-            3 => pick_where(&mut p, &|e| e.args.iter().chain(std::iter::once(&e.ret)).any(has_binary)),
-            5 => pick_where(&mut p, &|e| e.args.iter().chain(std::iter::once(&e.ret)).any(|r| r.depth() >= 2)),
+            3 => pick_where(&mut p, &|e| all(e).iter().any(has_binary)),
+            5 => pick_where(&mut p, &|e| all(e).iter().any(|r| r.depth() >= 2)),
             _ => p.below(fam.len() as u64) as usize,
         };
         targets.push(t);
     }
+    let mut exact_of: Vec<Option<usize>> = vec![None; targets_n];
     for (j, &t) in targets.iter().enumerate() {
         let e = &fam[t];
         let fm_shaped = e.group == "fm" || (matches!(e.ret, RT::Ver(..)) && p.chance(1, 2));
         for v in 0..variants_n {
-            let which = if v == 0 { 0 } else { 1 + p.below(9) };
-            let (params, ret, label) = variant(&mut p, e, which);
+            let which = if v == 0 {
+                0
+            } else if v <= forced.len() {
+                forced[v - 1]
+            } else {
+                // 10/11: one-sided arities; 12: module type of the same name (only where the host has one)
+                1 + p.below(if cx.env == 0 { 11 } else { 12 })
+            };
+            let (params, ret, label) = variant(&mut p, e, which, &cx);
             let name = format!("q{}", decls.len());
             // a filtermap instead of a fn when the (variant's) return type is a
             // verdict whose sides can be produced by the body
             let mut kind = Kind::Fn;
-            let mut ret2 = ret.clone();
             let mut label2 = label;
             if fm_shaped {
                 if let ST::Ver(a, r) = &ret {
@@ -733,13 +1098,26 @@ fn gen_script(fam: &[Entry], seed: u64, index: u64, thorough: bool) -> (Script, 
                     }
                 }
             }
-            let mut d = Decl { name, kind, params, ret: ret2.clone(), label: label2, target: t };
+            // what the written types denote in this script (re-declared names)
+            let params: Vec<ST> = params.iter().map(|t| cx.shadowize(t)).collect();
+            let ret = cx.shadowize(&ret);
+            let was_exact = label == "exact";
+            if !cx.shadow.is_empty() && (params.iter().any(|t| matches!(t.why_none(), w if w.starts_with("script-type"))) || ret.why_none().starts_with("script-type")) {
+                label2 = match (&kind, label) {
+                    (Kind::Filtermap(..), _) => "filtermap-redeclared-name",
+                    (_, "exact") => "redeclared-name",
+                    _ => "redeclared-name-near",
+                };
+            }
+            let mut d = Decl { name, kind, params, ret, label: label2, target: t };
             if let Kind::Filtermap(a, r) = &d.kind {
-                ret2 = ST::Ver(Box::new(d.side_ty(a)), Box::new(d.side_ty(r)));
-                d.ret = ret2;
+                d.ret = ST::Ver(Box::new(d.side_ty(a)), Box::new(d.side_ty(r)));
             }
             // the pair with its own target, and with one or two other targets
             let di = decls.len();
+            if was_exact && exact_of[j].is_none() {
+                exact_of[j] = Some(di);
+            }
             pairs.push(Pair { decl: Some(di), name: d.ask(), entry: t, label: d.label.to_string() });
             // … and with other family members, mostly of the same arity
             let ar = d.params.len();
@@ -753,7 +1131,56 @@ fn gen_script(fam: &[Entry], seed: u64, index: u64, thorough: bool) -> (Script, 
                 let r = pick_where(&mut p, &|e| e.args.len() == ar && e.ret == fam[t].ret);
                 pairs.push(Pair { decl: Some(di), name: d.ask(), entry: r, label: format!("cross:{}", d.label) });
             }
+            // one-sided arities: also `fn() -> R` and the one-parameter prefix
+            if matches!(label, "arity-plus-k-suffix" | "arity-plus-1") {
+                for want in [0usize, 1] {
+                    let pre: Vec<RT> = fam[t].args.iter().take(want).cloned().collect();
+                    if let Some(i) = fam.iter().position(|e| e.args == pre && e.ret == fam[t].ret) {
+                        if i != t {
+                            pairs.push(Pair { decl: Some(di), name: d.ask(), entry: i, label: "prefix-of-parameters".into() });
+                        }
+                    }
+                }
+            }
+            // a module-registered type named like a primitive, asked for as that primitive
+            if cx.env != 0 {
+                let as_prim = |t: &ST| -> Option<RT> {
+                    fn go(r: RT, cx: &Cx) -> RT {
+                        match r {
+                            RT::Val(k) => match cx.reg_named_like(k) {
+                                Some(n) => RT::Leaf(n),
+                                None => RT::Val(k),
+                            },
+                            RT::Opt(t) => RT::Opt(Box::new(go(*t, cx))),
+                            RT::List(t) => RT::List(Box::new(go(*t, cx))),
+                            RT::Res(a, b) => RT::Res(Box::new(go(*a, cx)), Box::new(go(*b, cx))),
+                            RT::Ver(a, b) => RT::Ver(Box::new(go(*a, cx)), Box::new(go(*b, cx))),
+                            leaf => leaf,
+                        }
+                    }
+                    t.map().map(|r| go(r, &cx))
+                };
+                let args2: Option<Vec<RT>> = d.params.iter().map(as_prim).collect();
+                if let (Some(args2), Some(ret2)) = (args2, as_prim(&d.ret)) {
+                    let same = d.params.iter().map(|t| t.map()).collect::<Option<Vec<RT>>>() == Some(args2.clone()) && d.ret.map() == Some(ret2.clone());
+                    if !same {
+                        if let Some(i) = fam.iter().position(|e| e.args == args2 && e.ret == ret2) {
+                            pairs.push(Pair { decl: Some(di), name: d.ask(), entry: i, label: "as-primitive-of-same-name".into() });
+                        }
+                    }
+                }
+            }
             decls.push(d);
+        }
+    }
+    // the true type of one function asked for its neighbour (a memo of verified
+    // Rust types must not leak from one function to another)
+    for j in 0..targets_n {
+        if let (Some(di), Some(_)) = (exact_of[j], exact_of[(j + 1) % targets_n]) {
+            let t2 = targets[(j + 1) % targets_n];
+            if t2 != targets[j] {
+                pairs.push(Pair { decl: Some(di), name: decls[di].ask(), entry: t2, label: "neighbours-true-type".into() });
+            }
         }
     }
     // a filtermap with an unused side for a random fm-shaped target's parameter list
@@ -777,24 +1204,25 @@ fn gen_script(fam: &[Entry], seed: u64, index: u64, thorough: bool) -> (Script, 
         pairs.push(Pair { decl: None, name: nm.to_string(), entry: decls[d0].target, label: "unknown-name".into() });
     }
     let mut src = String::from(PRELUDE);
+    src.push_str(&cx.shadow_decls());
     for d in &decls {
-        src.push_str(&d.src(&mut p));
+        src.push_str(&d.src(&mut p, &cx));
     }
-    (Script { src, decls }, pairs)
+    (Script { src, decls, cx, kind: script_kind }, pairs)
 }
 
 fn lean_request(s: &Script, helpers: &[String], pair: &Pair, e: &Entry, p: &mut Prng) -> String {
     let mut fns = String::new();
     let mut seen = BTreeSet::new();
     if let Some(di) = pair.decl {
-        fns.push_str(&s.decls[di].sexp());
+        fns.push_str(&s.decls[di].sexp(&s.cx));
         seen.insert(di);
     }
     for _ in 0..3 {
         let k = p.below(s.decls.len() as u64) as usize;
         if seen.insert(k) {
             fns.push(' ');
-            fns.push_str(&s.decls[k].sexp());
+            fns.push_str(&s.decls[k].sexp(&s.cx));
         }
     }
     // name probes must see every declared key
@@ -802,7 +1230,7 @@ fn lean_request(s: &Script, helpers: &[String], pair: &Pair, e: &Entry, p: &mut 
         for (k, d) in s.decls.iter().enumerate() {
             if seen.insert(k) {
                 fns.push(' ');
-                fns.push_str(&d.sexp());
+                fns.push_str(&d.sexp(&s.cx));
             }
         }
     }
@@ -810,7 +1238,8 @@ fn lean_request(s: &Script, helpers: &[String], pair: &Pair, e: &Entry, p: &mut 
         fns.push_str(&format!(" (helper #{})", hex(h)));
     }
     let sx = format!(
-        "(get {ENV} (fns {fns}) #{} (rust ({}) {}))",
+        "(get {} (fns {fns}) #{} (rust ({}) {}))",
+        s.cx.env_sexp(),
         hex(&pair.name),
         e.args.iter().map(rt_sexp).collect::<Vec<_>>().join(" "),
         rt_sexp(&e.ret)
@@ -818,18 +1247,86 @@ fn lean_request(s: &Script, helpers: &[String], pair: &Pair, e: &Entry, p: &mut 
     format!("c04 get {}", hex(&sx))
 }
 
-fn run_script(fam: &[Entry], rt: &Runtime<NoCtx>, drv: &mut Driver, rep: &mut Report, seed: u64, index: u64, thorough: bool) {
+fn compile(src: &str, rt: &Runtime<NoCtx>) -> Result<Result<Package<NoCtx>, String>, ()> {
+    std::panic::catch_unwind(std::panic::AssertUnwindSafe(|| {
+        FileTree::test_file("c04.roto", src, 0).compile(rt).map_err(|e| e.to_string())
+    }))
+    .map_err(|_| ())
+}
+
+/// One request of a history on one package.
+type Req = (String, usize);
+
+/// The answer to `last` on a fresh package after the requests `before`.
+fn fresh_answer(fam: &[Entry], rt: &Runtime<NoCtx>, src: &str, before: &[Req], last: &Req) -> Option<String> {
+    let mut pkg = compile(src, rt).ok()?.ok()?;
+    for (name, e) in before {
+        let _ = (fam[*e].probe)(&mut pkg, name);
+    }
+    Some(canon(&(fam[last.1].probe)(&mut pkg, &last.0)))
+}
+
+/// A wrong answer was seen for `log[k]` after `log[..k]` on one package. Find
+/// the shortest of: no history, the same request asked before, the earlier
+/// requests for the same name, the earlier requests under the same Rust type,
+/// the whole prefix — that reproduces it on a fresh package.
+fn minimise_history(fam: &[Entry], rt: &Runtime<NoCtx>, src: &str, log: &[Req], k: usize, wrong: &str) -> (Vec<Req>, &'static str) {
+    let last = &log[k];
+    let same = |b: &[Req]| fresh_answer(fam, rt, src, b, last).as_deref() == Some(wrong);
+    if same(&[]) {
+        return (vec![], "none");
+    }
+    let one = vec![last.clone()];
+    if same(&one) {
+        return (one, "same-request-repeated");
+    }
+    let by_name: Vec<Req> = log[..k].iter().filter(|r| r.0 == last.0).cloned().collect();
+    if same(&by_name) {
+        // one earlier request may be enough
+        for r in &by_name {
+            if same(std::slice::from_ref(r)) {
+                return (vec![r.clone()], "one-earlier-request-for-the-same-function");
+            }
+        }
+        return (by_name, "earlier-requests-for-the-same-function");
+    }
+    let by_type: Vec<Req> = log[..k].iter().filter(|r| r.1 == last.1).cloned().collect();
+    if same(&by_type) {
+        for r in &by_type {
+            if same(std::slice::from_ref(r)) {
+                return (vec![r.clone()], "one-earlier-request-under-the-same-rust-type");
+            }
+        }
+        return (by_type, "earlier-requests-under-the-same-rust-type");
+    }
+    (log[..k].to_vec(), "whole-prefix")
+}
+
+struct Judged {
+    expected_ok: bool,
+    class: Option<String>,
+    first: String,
+    model: String,
+}
+
+fn run_script(fam: &[Entry], rts: &[Runtime<NoCtx>], drv: &mut Driver, rep: &mut Report, seed: u64, index: u64, thorough: bool) {
     let (script, mut pairs) = gen_script(fam, seed, index, thorough);
-    let compiled = std::panic::catch_unwind(std::panic::AssertUnwindSafe(|| {
-        FileTree::test_file("c04.roto", &script.src, 0).compile(rt).map_err(|e| e.to_string())
-    }));
-    let mut pkg = match compiled {
+    let cx = script.cx.clone();
+    let rt = &rts[cx.env];
+    rep.hist("script-kind", script.kind);
+    let mut pkg = match compile(&script.src, rt) {
         Ok(Ok(p)) => p,
         Ok(Err(e)) => {
             rep.hist("script", "does-not-compile");
+            let plain: String = e.chars().filter(|c| c.is_ascii() && !c.is_ascii_control() || *c == '\n').collect();
+            let msg = format!("script {index} ({}) does not compile: {}", script.kind, plain.lines().take(6).collect::<Vec<_>>().join(" | "));
+            if index < boundary_count(thorough) {
+                // a boundary script that does not compile is a hole in the
+                // coverage the check claims: the generator's idea of the language is wrong
+                rep.mismatch("a boundary script does not compile (the generator's model of the language is wrong)", json!({"seed": seed, "index": index, "script": script.src, "error": msg}));
+            }
             if rep.notes.len() < 5 {
-                let plain: String = e.chars().filter(|c| c.is_ascii() && !c.is_ascii_control() || *c == '\n').collect();
-                rep.notes.push(format!("script {index} does not compile: {}", plain.lines().take(6).collect::<Vec<_>>().join(" | ")));
+                rep.notes.push(msg);
             }
             return;
         }
@@ -861,63 +1358,102 @@ fn run_script(fam: &[Entry], rt: &Runtime<NoCtx>, drv: &mut Driver, rep: &mut Re
 
     let reqs: Vec<String> = pairs.iter().map(|pr| lean_request(&script, &helpers, pr, &fam[pr.entry], &mut p)).collect();
     let answers = drv.ask_all(&reqs);
-    for (pr, ans) in pairs.iter().zip(&answers) {
+
+    // The history explored on this one package: every pair in order (round 1),
+    // every pair again in reverse order (round 2: a refusal followed by the
+    // same request, a wrong request before the right one), and once more in
+    // the original order (round 3). `get_function` is specified as a function
+    // of (package, name, Rust type) alone — the model has no state
+    // (`RotoV.C04.history_independent`) — so every round has the same oracle.
+    let n = pairs.len();
+    let order: Vec<(u8, usize)> =
+        (0..n).map(|k| (1u8, k)).chain((0..n).rev().map(|k| (2u8, k))).chain((0..n).map(|k| (3u8, k))).collect();
+    let mut judged: Vec<Option<Judged>> = (0..n).map(|_| None).collect();
+    let mut log: Vec<Req> = vec![];
+    for (round, k) in order {
+        let pr = &pairs[k];
         let e = &fam[pr.entry];
         let real = (e.probe)(&mut pkg, &pr.name);
         let real_s = canon(&real);
+        log.push((pr.name.clone(), pr.entry));
         rep.evaluations += 1;
-        let (model_s, spec_s) = match ans.rsplit_once(' ') {
-            Some((m, s)) => (m.to_string(), s.to_string()),
-            None => (ans.clone(), String::new()),
-        };
-        // oracle: the documented mapping, independently
-        let (exists, class) = match pr.decl {
-            Some(di) => (true, mismatch_class(&script.decls[di], e)),
-            None => (false, Some(if pr.label == "helper-name" { "generated-helper".to_string() } else { "unknown-name".to_string() })),
-        };
-        let expected_ok = exists && class.is_none();
-        let input = || {
-            json!({
-                "seed": seed, "index": index,
+        if judged[k].is_none() {
+            let ans = &answers[k];
+            let (model_s, spec_s) = match ans.rsplit_once(' ') {
+                Some((m, s)) => (m.to_string(), s.to_string()),
+                None => (ans.clone(), String::new()),
+            };
+            // oracle: the documented mapping, independently
+            let (exists, class) = match pr.decl {
+                Some(di) => (true, mismatch_class(&script.decls[di], e, &cx)),
+                None => (false, Some(if pr.label == "helper-name" { "generated-helper".to_string() } else { "unknown-name".to_string() })),
+            };
+            let expected_ok = exists && class.is_none();
+            if (spec_s == "spec-ok") != expected_ok {
+                rep.mismatch(
+                    "the Lean `mapping` (spec side of get_function_iff) and the harness oracle disagree",
+                    json!({"seed": seed, "index": index, "script": script.src, "name": pr.name, "rust_type": e.show(), "label": pr.label, "lean": ans, "oracle_ok": expected_ok}),
+                );
+            }
+            judged[k] = Some(Judged { expected_ok, class, first: real_s.clone(), model: model_s });
+        }
+        let j = judged[k].as_ref().unwrap();
+        let (expected_ok, class) = (j.expected_ok, j.class.clone());
+        let kc = key_class(&class.clone().unwrap_or_default());
+        let wrong = (real == Outcome::Ok) != expected_ok || real == Outcome::Panic;
+        if wrong && rep.impl_violations.len() < 200 {
+            // is the wrong answer a function of the request alone, or of what was asked before?
+            let (history, how) = minimise_history(fam, rt, &script.src, &log, log.len() - 1, &real_s);
+            let hist_json: Vec<Value> = history.iter().map(|(nm, e)| json!({"name": nm, "rust_type": fam[*e].show()})).collect();
+            let input = json!({
+                "seed": seed, "index": index, "env": cx.env,
+                "host_types": [format!("{} = Val<Foo>", cx.reg_path(0)), format!("{} = Val<Bar>", cx.reg_path(1))],
+                "redeclared_by_script": cx.shadow.iter().map(|s| s.0).collect::<Vec<_>>(),
                 "script": script.src,
-                "function": pr.decl.map(|di| script.decls[di].show()),
+                "function": pr.decl.map(|di| script.decls[di].show(&cx)),
                 "name": pr.name,
                 "rust_type": e.show(),
                 "label": pr.label,
                 "expected": if expected_ok { "ok".to_string() } else { format!("refused ({})", class.clone().unwrap_or_default()) },
-                "real": real_s, "model": model_s,
-            })
-        };
-        if real == Outcome::Ok && !expected_ok {
-            rep.violation(
-                "get_function returned a callable handle under a Rust type that is not the image of the script signature",
-                &format!("accepts-wrong-signature:{}", key_class(&class.clone().unwrap_or_default())),
-                input(),
-            );
-        } else if real != Outcome::Ok && expected_ok {
-            rep.violation(
-                "get_function refused the true Rust signature of a script function",
-                &format!(
-                    "refuses-true-signature:{}:{}",
-                    match &script.decls[pr.decl.unwrap()].kind { Kind::Fn => "fn", Kind::Filtermap(..) => "filtermap", Kind::Test => "test" },
-                    real_s.split(' ').next().unwrap_or("")
-                ),
-                input(),
-            );
-        } else if real == Outcome::Panic {
-            rep.violation(
-                "get_function panicked instead of returning an error",
-                &format!("panics:{}", key_class(&class.clone().unwrap_or_default())),
-                input(),
+                "real": real_s, "model": j.model,
+                "round": round,
+                "history": hist_json,
+                "history_kind": how,
+            });
+            let dep = if how == "none" { String::new() } else { format!("history-dependent({how}):") };
+            if real == Outcome::Ok && !expected_ok {
+                rep.violation(
+                    "get_function returned a callable handle under a Rust type that is not the image of the script signature",
+                    &format!("{dep}accepts-wrong-signature:{kc}"),
+                    input,
+                );
+            } else if real == Outcome::Panic {
+                rep.violation("get_function panicked instead of returning an error", &format!("{dep}panics:{kc}"), input);
+            } else {
+                rep.violation(
+                    "get_function refused the true Rust signature of a script function",
+                    &format!(
+                        "{dep}refuses-true-signature:{}:{}",
+                        match &script.decls[pr.decl.unwrap()].kind { Kind::Fn => "fn", Kind::Filtermap(..) => "filtermap", Kind::Test => "test" },
+                        real_s.split(' ').next().unwrap_or("")
+                    ),
+                    input,
+                );
+            }
+        }
+        if real_s != j.model {
+            rep.mismatch(
+                "model and implementation disagree on get_function",
+                json!({"seed": seed, "index": index, "env": cx.env, "script": script.src, "name": pr.name, "rust_type": e.show(),
+                       "label": pr.label, "round": round, "real": real_s, "model": j.model, "first_answer": j.first}),
             );
         }
-        if real_s != model_s {
-            rep.mismatch("model and implementation disagree on get_function", input());
+        rep.hist("round", round.to_string());
+        if round != 1 {
+            rep.class(format!("round{round}|{}|{}", if expected_ok { "true" } else { "wrong" }, pr.label.split(':').next().unwrap_or("")));
+            continue;
         }
-        if (spec_s == "spec-ok") != expected_ok {
-            rep.mismatch("the Lean `mapping` (spec side of get_function_iff) and the harness oracle disagree", input());
-        }
-        // distribution
+        // distribution (first round only)
         let kind = real_s.split(' ').next().unwrap_or("").to_string();
         rep.hist("label", pr.label.clone());
         rep.hist("outcome", kind.clone());
@@ -927,16 +1463,59 @@ fn run_script(fam: &[Entry], rt: &Runtime<NoCtx>, drv: &mut Driver, rep: &mut Re
             // drop positions so the histogram stays small
             let c2: String = c.split(':').skip(1).collect::<Vec<_>>().join(":");
             let c3 = c2.rsplit('/').next().unwrap_or("").to_string();
-            rep.hist("mismatch-class", if c.starts_with("arity") { "arity".to_string() } else if c3.is_empty() { c.clone() } else { c3 });
+            rep.hist("mismatch-class", if c.starts_with("arity") { c.split(':').next().unwrap_or("arity").to_string() } else if c3.is_empty() { c.clone() } else { c3 });
             rep.hist("mismatch-depth", c2.matches('/').count().to_string());
-        } else if exists {
+        } else if exists_decl(pr) {
             rep.hist("mismatch-class", "none (true signature)");
         }
-        rep.class(format!("{}|{}|{}|a{}", pr.label, kind, class.clone().unwrap_or_else(|| "true".into()), e.args.len()));
-        if pr.decl.is_some() && (expected_ok || pr.label.starts_with("swapped") || pr.label == "leaf-changed") {
-            rep.sample(json!({"function": script.decls[pr.decl.unwrap()].show(), "rust_type": e.show(), "label": pr.label, "real": real_s, "model": model_s}));
+        let class_s = match &class {
+            Some(c) if c.starts_with("arity") => c.split(':').next().unwrap_or("arity").to_string(),
+            Some(c) => c.clone(),
+            None => "true".into(),
+        };
+        rep.class(format!("{}|{}|{}|a{}", pr.label, kind, class_s, e.args.len()));
+        // one sample per label, the trigger classes of the boundary stream first
+        let wanted = ["redeclared-name", "filtermap-redeclared-name", "named-like-primitive", "as-primitive-of-same-name", "prefix-of-parameters", "exact", "filtermap-exact", "leaf-changed", "swapped-type-args"];
+        if pr.decl.is_some() && wanted.contains(&pr.label.as_str()) {
+            let dup = rep.samples.iter().filter(|s| s["label"] == pr.label.as_str()).count();
+            if dup < 1 {
+                rep.sample(json!({"function": script.decls[pr.decl.unwrap()].show(&cx), "rust_type": e.show(), "label": pr.label, "real": real_s, "model": j.model,
+                    "host_types": [format!("{} = Val<Foo>", cx.reg_path(0)), format!("{} = Val<Bar>", cx.reg_path(1))],
+                    "redeclared_by_script": cx.shadow.iter().map(|s| s.0).collect::<Vec<_>>()}));
+            }
         }
     }
+}
+
+fn exists_decl(pr: &Pair) -> bool {
+    pr.decl.is_some()
+}
+
+/// The hypothesis `TypeInfo.WF` of the gate theorems, asked of the real
+/// registration: a host type under a reserved name in the global scope is
+/// refused. Returns the names for which registration succeeded.
+fn wf_probe() -> Vec<&'static str> {
+    let mut accepted = vec![];
+    macro_rules! attempt {
+        ($($name:ident),*) => { $(
+            let r = std::panic::catch_unwind(|| {
+                Runtime::<NoCtx>::from_lib(library! {
+                    /// a host type under a reserved name
+                    #[clone] type $name = Val<Foo>;
+                })
+                .is_ok()
+            });
+            if r.unwrap_or(false) {
+                accepted.push(stringify!($name));
+            }
+        )* };
+    }
+    attempt!(bool, char, u8, u16, u32, u64, i8, i16, i32, i64, f32, f64, Asn, IpAddr, Prefix, String, Option, Result, Verdict, List);
+    accepted
+}
+
+fn runtimes() -> Vec<Runtime<NoCtx>> {
+    (0..ENVS.len()).map(runtime).collect()
 }
 
 fn main() {
@@ -948,13 +1527,13 @@ fn main() {
             let seed: u64 = args.get(2).and_then(|s| s.parse().ok()).unwrap_or(1);
             let thorough = args.get(3).map(|s| s == "thorough").unwrap_or(false);
             let tier = if thorough { "thorough" } else { "quick" };
-            let scripts: u64 = if thorough { 1000 } else { 42 };
+            let scripts: u64 = if thorough { 3000 } else { 300 };
             let seed_s = seed.to_string();
             use rotov_harness::worker::{Ended, run_batches};
             run_batches(
                 &[&seed_s, tier],
                 scripts,
-                if thorough { 125 } else { 42 },
+                if thorough { 125 } else { 100 },
                 std::time::Duration::from_secs(1500),
                 &mut rep,
                 |rep: &mut Report, idx: u64, how: &Ended| {
@@ -963,7 +1542,7 @@ fn main() {
                     rep.violation(
                         "process died while compiling a script of declarations or while retrieving functions from it",
                         "crash",
-                        json!({"seed": seed, "index": idx, "script": s.src, "ended": format!("{how:?}")}),
+                        json!({"seed": seed, "index": idx, "env": s.cx.env, "script": s.src, "ended": format!("{how:?}")}),
                     );
                 },
             );
@@ -975,29 +1554,48 @@ fn main() {
             let from: u64 = args[4].parse().unwrap();
             let n: u64 = args[5].parse().unwrap();
             let fam = family();
-            let rt = runtime();
+            let rts = runtimes();
             let mut drv = Driver::spawn().expect("lean driver");
             if from == 0 {
                 rep.notes.push(format!("lean tables: {}", drv.ask("c04 tables")));
+                let accepted = wf_probe();
+                rep.evaluations += 20;
+                rep.hist("wf-probe", if accepted.is_empty() { "all 20 reserved global names refused" } else { "some accepted" });
+                if !accepted.is_empty() {
+                    rep.mismatch(
+                        "hypothesis TypeInfo.WF of the gate theorems does not hold: the runtime registered a host type under a reserved global name",
+                        json!({"accepted": accepted, "library": "#[clone] type <name> = Val<Foo>;"}),
+                    );
+                }
             }
             for i in from..from + n {
                 println!("START {i}");
-                run_script(&fam, &rt, &mut drv, &mut rep, seed, i, thorough);
+                run_script(&fam, &rts, &mut drv, &mut rep, seed, i, thorough);
             }
         }
         Some("replay") => {
-            // {script, name, rust_type}: compile, ask, compare with the oracle stored in the file
+            // {script, env, history: [{name, rust_type}…], name, rust_type}: compile, make the
+            // earlier requests on the same package, ask, compare with the oracle stored in the file
             let v: Value = serde_json::from_str(&args[2]).expect("replay json");
             let fam = family();
-            let rt = runtime();
+            let env = v["env"].as_u64().unwrap_or(0) as usize;
+            let rt = runtime(env);
             let src = v["script"].as_str().expect("script");
             let name = v["name"].as_str().expect("name");
             let ty = v["rust_type"].as_str().expect("rust_type");
-            let e = fam.iter().find(|e| e.show() == ty).expect("rust type in family");
+            let find = |ty: &str| fam.iter().find(|e| e.show() == ty).expect("rust type in family");
+            let e = find(ty);
             let mut pkg = FileTree::test_file("c04.roto", src, 0).compile(&rt).map_err(|e| e.to_string()).expect("compiles");
+            println!("function : {}", v["function"].as_str().unwrap_or("-"));
+            if let Some(h) = v["history"].as_array() {
+                for (i, r) in h.iter().enumerate() {
+                    let (hn, ht) = (r["name"].as_str().unwrap_or(""), r["rust_type"].as_str().unwrap_or(""));
+                    let a = canon(&(find(ht).probe)(&mut pkg, hn));
+                    println!("before {:>3}: get_function::<{ht}>({hn:?}) -> {a}", i + 1);
+                }
+            }
             let real = canon(&(e.probe)(&mut pkg, name));
             let expected_ok = v["expected"].as_str() == Some("ok");
-            println!("function : {}", v["function"].as_str().unwrap_or("-"));
             println!("request  : get_function::<{ty}>({name:?})");
             println!("expected : {}", v["expected"].as_str().unwrap_or("?"));
             println!("real     : {real}");
